@@ -3,7 +3,9 @@
    its columns is written unchanged and left-aligned - so it reads back as itself after trimming -, and a number cut to its
    last digits is written without leading zeros (the wrap-around convention of the serial-number columns). *)
 From Coq Require Import List Ascii String ZArith Bool Lia Arith.
-From PV Require Import Base.Sx Base.Text Spec.Hier Model.PdbLex Model.PdbParse Model.PdbWrite.
+From Coq Require Import QArith.
+Local Close Scope Q_scope.
+From PV Require Import Base.Sx Base.Text Base.Float Spec.Hier Proofs.Decimal Model.PdbLex Model.PdbParse Model.PdbWrite.
 Import ListNotations.
 
 (* 1. a text that fits its columns is written as it is, padded on the right to the width of the field *)
@@ -28,7 +30,34 @@ Proof. intros w. unfold field_text. destruct w; reflexivity. Qed.
 Theorem C03_free_field : forall t, field_text 0 t = t.
 Proof. reflexivity. Qed.
 
+(* 5. numbers: what the fixed-point formatter prints for a binary64 value m * 2^e with p decimals is read back by the
+      decimal parser as exactly r / 10^p, where r is the magnitude rounded (half to even) to p decimals - for every value
+      and every precision ... *)
+Theorem C03_number_reads_back : forall p nz m e,
+  exists q, parse_dec (fmt_fixed p nz (m, e)) = Some q /\
+            Qeq q (neg_of ((m <? 0)%Z || nz)%bool (Qmake (fixed_r p m e) (Z.to_pos (10 ^ Z.of_nat p)))).
+Proof. exact parse_fmt_fixed. Qed.
+(* ... and r is within half a unit of the last decimal of the value: exact for an integer value, and for m * 2^e with e < 0
+      |r * 2^-e - |m| * 10^p| <= 2^-e / 2 *)
+Theorem C03_number_exact_for_integers : forall p m e, (0 <= e)%Z -> fixed_r p m e = (Z.abs m * 2 ^ e * 10 ^ Z.of_nat p)%Z.
+Proof. exact fixed_r_exact. Qed.
+Theorem C03_number_rounded_to_precision : forall p m e, (e < 0)%Z ->
+  (2 * Z.abs (fixed_r p m e * 2 ^ (- e) - Z.abs m * 10 ^ Z.of_nat p) <= 2 ^ (- e))%Z.
+Proof. exact fixed_r_close. Qed.
+(* 6. integers: the decimal digits written for a non-negative number read back as that number *)
+Theorem C03_integer_reads_back : forall n rest acc cnt, (0 <= n)%Z ->
+  match rest with [] => True | c :: _ => digit_of c = None end ->
+  digits (show_Zpos n ++ rest) acc cnt = ((acc * 10 ^ Z.of_nat (List.length (show_Zpos n)) + n)%Z, (cnt + Z.of_nat (List.length (show_Zpos n)))%Z, rest).
+Proof.
+  intros n rest acc cnt Hn Hr. destruct (show_Zpos_spec n Hn) as (A & V & _ & _).
+  rewrite (digits_spec (show_Zpos n) rest acc cnt A Hr), V. reflexivity.
+Qed.
+
 Print Assumptions C03_field_keeps_fitting_text.
 Print Assumptions C03_field_width.
 Print Assumptions C03_empty_field_blank.
 Print Assumptions C03_free_field.
+Print Assumptions C03_number_reads_back.
+Print Assumptions C03_number_exact_for_integers.
+Print Assumptions C03_number_rounded_to_precision.
+Print Assumptions C03_integer_reads_back.
